@@ -23,6 +23,8 @@ MODS = {
     'pkgq/far.py': 'farval = 1\n',
     'pkgq/sub/__init__.py': '',
     'pkgq/sub/near.py': 'nearval = 2\n',
+    'scyca.py': 'from scycb import *\naaa = 1\n',
+    'scycb.py': 'from scyca import *\nbbb = 2\n',
     'factories.py': 'class Alpha(object):\n    alpha_attr = 1\nclass Beta(object):\n    beta_attr = 2\n'
                     'def make_alpha(n):\n    if n:\n        result = Alpha()\n    else:\n        result = make_beta(n)\n    return result\n'
                     'def make_beta(n):\n    if n:\n        result = Beta()\n    else:\n        result = make_alpha(n)\n    return result\n'
@@ -48,6 +50,8 @@ REQUESTS = [
     ('assist', 'import factories\nfactories.second.', (2, 17)),
     ('assist', 'from factories import make_beta\nmake_beta(1).', (2, 13)),
     ('location', 'from factories import make_alpha\nmake_alpha(1).beta_attr', (2, 16)),
+    ('assist', 'import scyca\nscyca.', (2, 6)),
+    ('assist', 'import scycb\nscycb.', (2, 6)),
 ]
 NREQ = len(REQUESTS)
 
